@@ -10,7 +10,7 @@ CONSTANTS N = 3
  InnerProofPolicy = "reject"
  VCBatchPolicy = "none"
  AggBatchFor = "none"
- MemoVerifier = FALSE
+ MemoVerifier = TRUE
  ReplayPolicy = "admit"
 INVARIANTS TypeOK OnlyValidEnter ValidEnters PeerAllOrNothing
 CHECK_DEADLOCK FALSE
